@@ -36,7 +36,8 @@ def run(ctx):
     ctx.rule = ("case = (size, extraction entry point [copy/hard_link/reflink x key/hash x checked/unchecked, reflink "
                 "with and without emulated FICLONE], mode, destination absent/present(marker bytes), content state "
                 "pristine / one of the C01 damage classes / missing, key present/absent). After every call the "
-                "destination is lstat'ed and read by the harness. distinct = (entry point, mode, content state, "
+                "destination is lstat'ed and read by the harness. Size sweep: pristine content of every size 2^k, 3*2^k and "
+                "their neighbours (k <= 17 quick, 21 thorough) through every copy/hard-link entry point. distinct = (entry point, mode, content state, "
                 "damage class, destination state, size)")
     ctx.assumptions = ["no reflink-capable filesystem: FICLONE is emulated for the success path",
                        "pre-existing destinations carry marker bytes distinct from any stored or damaged data"]
@@ -136,9 +137,40 @@ def run(ctx):
                     os.rename(path + ".gone", path)
                 if cm:
                     cm.__exit__(None, None, None)
+    size_sweep(ctx, rng, cache, destroot, modes)
     repeat_after_damage(ctx, rng, cache, destroot, modes)
     for d in fic.values():
         d.close()
+
+
+def size_sweep(ctx, rng, cache, destroot, modes):
+    """Pristine content of every edge size (2^k, 3*2^k and neighbours) through every extraction entry point: a buffer
+    or threshold that is exactly full at one size shows nowhere else."""
+    sizes = gen.edge_sizes(17 if ctx.quick else 21)
+    for si, size in enumerate(sizes):
+        algo = "sha256" if si % 3 else rng.choice(gen.ALGOS)
+        data = rng.randbytes(size)
+        key = f"sweep-{size}"
+        w = ctx.call("sync@astd", {"op": "write", "cache": cache, "key": key, "algo": algo, "data": ctx.data(data)})
+        if not ev.is_ok(w):
+            ctx.inconc(f"size sweep: setup write of {size} bytes failed: {ev.brief(w)}")
+            continue
+        sri = w["ok"]["sri"]
+        for mode in (modes if size <= 70000 or not ctx.quick else [modes[si % len(modes)]]):
+            ddir = os.path.join(destroot, f"sweep-{size}-{mode.replace('@', '-')}")
+            os.makedirs(ddir)
+            reqs, meta = [], []
+            for n in retr.CHECKED_EXTRACT + retr.UNCHECKED_EXTRACT:
+                if not retr.available(n, mode) or n.startswith("reflink"):
+                    continue
+                dest = os.path.join(ddir, n)
+                reqs.append(retr.request(n, cache, key, sri, dest))
+                meta.append((n, dest))
+            for (n, dest), r, q in zip(meta, ctx.batch(mode, reqs), reqs):
+                judge(ctx, n, mode, False, "pristine", None, False, size, data, data, dest, r, q, cache, key, algo)
+                ctx.count("size_sweep_extractions")
+            ctx.rm(ddir)
+        ctx.call("sync@astd", {"op": "remove_hash", "cache": cache, "sri": sri})
 
 
 def repeat_after_damage(ctx, rng, cache, destroot, modes):
